@@ -99,8 +99,13 @@ bool DataTracker::process_payload(uint32_t seq, payload_type payload) {
                 iter->second.end()
             );
             seq_number_ += iter->second.size();
+            // Only report new data if this chunk actually contained some
+            // (e.g. a retransmission ending right at our sequence number
+            // is sliced down to an empty chunk)
+            if (!iter->second.empty()) {
+                added_some = true;
+            }
             iter = erase_iterator(iter);
-            added_some = true;
         }
     }
     return added_some;
